@@ -34,13 +34,16 @@ def hx(s):
 
 SAN_POOL = [("dns", "www.a.t"), ("dns", "*.b.t"), ("dns", "a.t"), ("dns", "w*.a.t"), ("dns", "*.*.t"), ("dns", "a.*.t"),
             ("dns", "WWW.C.T"), ("dns", "*.t"), ("dns", "www.a.t."), ("dns", "ww\x01w.a.t"), ("dns", "a.t\x00"), ("dns", "a.t\x00\x00"), ("dns", "a\x00.t"),
-            ("email", "u@a.t"), ("email", "U@B.T"), ("ip", "\x01\x02\x03\x04"), ("uri", "http://www.a.t/")]
+            ("email", "u@a.t"), ("email", "U@B.T"), ("ip", "\x01\x02\x03\x04"), ("uri", "http://www.a.t/"),
+            # an address whose dotted form has the full 15 characters, and a 16-octet (IPv6) address that starts like an IPv4 one
+            ("ip", "\xc0\xa8\x64\xc8"), ("ip", "\x0a\x14\x1e\x28" + "\x00" * 11 + "\x01")]
 CN_POOL = [None, "www.d.t", "*.d.t", "www.a.t", "x.b.t"]
 EXPECTED = [("dns", "www.a.t"), ("dns", "WWW.A.T"), ("dns", "x.b.t"), ("dns", "x.y.b.t"), ("dns", "b.t"), ("dns", ".b.t"), ("dns", "a.t"),
             ("dns", "wx.a.t"), ("dns", "www.c.t"), ("dns", "www.d.t"), ("dns", "x.d.t"), ("dns", "x.y.t"), ("dns", "a.x.t"), ("dns", "x.t"),
             ("dns", "www.a.t."), ("dns", "t"), ("dns", "evil.t"), ("dns", "xwww.a.t"), ("dns", "www.a.tx"),
             ("email", "u@a.t"), ("email", "U@a.t"), ("email", "u@A.T"), ("email", "u@b.t"), ("email", "v@a.t"),
-            ("ip", "1.2.3.4"), ("ip", "1.2.3.44"), ("ip", "1.2.3.5")]
+            ("ip", "1.2.3.4"), ("ip", "1.2.3.44"), ("ip", "1.2.3.5"),
+            ("ip", "192.168.100.200"), ("ip", "192.168.100.20"), ("ip", "192.168.100.2"), ("ip", "10.20.30.40")]
 
 def ip_abs(s):
     # SAN iPAddress octets -> dotted labels
